@@ -726,12 +726,19 @@ def csv_read_array(kind, cells, shape=None):
     from mpilot.libraries.eems.csv.io import EEMSRead
 
     missing = -9999
+    if kind != "i":
+        # the declared missing value lies very close to (but is not) one of the column's values: only cells EQUAL to it are missing
+        near = [c[0] / c[1] for c in cells if c[1] != 0 and c[0] != 0]
+        if near:
+            missing = near[0] * (1 + 2e-6)
+            if any(c[1] != 0 and c[0] / c[1] == missing for c in cells):
+                missing = -9999
     d = core.scratch_dir("mpv-csv-")
     path = os.path.join(d, "in.csv")
     with open(path, "w") as f:
         f.write("v\n")
         for c in cells:
-            f.write(("%d" % missing if c[1] == 0 else repr(c[0] // c[1] if kind == "i" else c[0] / c[1])) + "\n")
+            f.write((repr(missing) if c[1] == 0 else repr(c[0] // c[1] if kind == "i" else c[0] / c[1])) + "\n")
     kw = {"InFileName": path, "InFieldName": "v", "MissingVal": missing}
     if kind == "i":
         kw["DataType"] = int
